@@ -24,6 +24,6 @@ def check(ctx):
     ctx.rule("C13.M3", "no engine next_state(first) after an engine done() (no cycling)")
     ctx.rule("C13.M4", "first state call after on_enable(): tm == 0, initial_call True")
     res = smcommon.run_universes(ctx, "AutonomousStateMachine", owned=OWNED)
+    smcommon.report(ctx, res, OWNED, RENAME)
     ctx.floor("universes", len(res), 4)
     ctx.floor("typestates", sum(r["states"] for r in res), 200)
-    smcommon.report(ctx, res, OWNED, RENAME)
